@@ -164,6 +164,12 @@ impl ChunkStateMmapper {
     fn get_state(&self, chunk: Address) -> MapState {
         self.storage.get_state(chunk)
     }
+
+    /// Verification hook: the recorded state of `chunk` (0 = Unmapped, 1 = Quarantined, 2 = Mapped).
+    #[cfg(feature = "mmtk_verif")]
+    pub(crate) fn verif_get_state(&self, chunk: Address) -> u8 {
+        self.storage.get_state(chunk) as u8
+    }
 }
 
 impl Mmapper for ChunkStateMmapper {
